@@ -154,7 +154,7 @@ def shape_tags(c, acc=None, neg=0):
 CUR_WORLD = None      # set by multi.build: the built world the current query ranges over (for "sub1" operands)
 
 
-def with_single_solution_subquery(rng, cond, world):
+def with_single_solution_subquery(rng, cond, world, flavours=("an",)):
     """Replace some numeric literal operands of comparisons by `an(entity(y, y.ix == i)).a`: a nested query with exactly
     one solution, so the condition stays an ordinary condition over the outer variables (returns the number replaced)."""
     n = 0
@@ -171,7 +171,7 @@ def with_single_solution_subquery(rng, cond, world):
                     attr = rng.choice(["a", "b"])
                     val = getattr(o, attr)
                     if type(val) is int:
-                        c[i] = ["sub1", kind, o.ix, attr, val]
+                        c[i] = ["sub1", kind, o.ix, attr, val, rng.choice(flavours)]
                         n += 1
         elif c[0] in ("and", "&", "or", "|", "not", "~"):
             for s in c[1:]:
@@ -190,7 +190,16 @@ def bval(v, xs):
         from entity_query_language import an, entity, let
         pool = CUR_WORLD[v[1]]
         y = let({"P": D.P, "Q": D.Q}[v[1]], pool)
-        return getattr(an(entity(y, y.ix == v[2])), v[3])
+        flavour = v[5] if len(v) > 5 else "an"
+        if flavour == "the_pred":       # the(...) whose condition is a Predicate subclass that calls a function predicate
+            from entity_query_language import the
+            sub = the(entity(y, D.CIx(y, v[2]) if v[2] else D.CIx(y)))
+        elif flavour == "the":
+            from entity_query_language import the
+            sub = the(entity(y, y.ix == v[2]))
+        else:
+            sub = an(entity(y, y.ix == v[2]))
+        return getattr(sub, v[3])
     o = xs[v[1]]
     for st in v[2]:
         k = st[0]
